@@ -463,7 +463,7 @@ def filler(rnd, words, style, base):
             out.append(data(1, S("q" * 200)))
             left -= 100
             continue
-        s = style if style != "mix" else rnd.choice(["nop", "jmp", "db", "dw", "dbs", "dbu"])
+        s = style if style != "mix" else rnd.choice(["nop", "jmp", "db", "dw", "dbs", "dbu", "dd", "dq"])
         if s == "jmp" and left >= 2:
             out.append(instr("jmp", E(0)))
             left -= 2
@@ -485,6 +485,12 @@ def filler(rnd, words, style, base):
         elif s == "dw":
             out.append(data(2, E(0xbeef)))
             left -= 1
+        elif s == "dq" and left >= 4:
+            out.append(data(8, E(0x1122334455667788)))  # four words
+            left -= 4
+        elif s in ("dd", "dq") and left >= 2:
+            out.append(data(4, E(0x12345678)))          # two words
+            left -= 2
         else:
             out.append(instr("nop"))
             left -= 1
@@ -528,7 +534,7 @@ def branch_case(rnd, kind, d, style, naming, prefix):
 def check_c03(prop, tier, seed, devices):
     rnd = random.Random(seed)
     cases = []
-    styles = ["nop", "jmp", "db", "dw", "dbs", "dbu", "org", "mix"]
+    styles = ["nop", "jmp", "db", "dw", "dbs", "dbu", "dd", "dq", "org", "mix"]
     br_bound = [-70, -66, -65, -64, -63, -62, -2, -1, 0, 1, 2, 61, 62, 63, 64, 65, 66, 70]
     rj_bound = [-2056, -2050, -2049, -2048, -2047, -2046, -1, 0, 1, 2046, 2047, 2048, 2049, 2056]
     # every kind at every boundary distance, fillers rotated (thorough: all fillers)
@@ -581,9 +587,20 @@ def check_c03(prop, tier, seed, devices):
                     else:
                         prog = [line("device", n=devname), label("target")] + gap + [instr("nop") for _ in range(-d)] + [instr(mn, *(ops_pre + [E(sym("target"))])), instr("ret")]
                     cases.append(Case(prog, tag="device"))
+    # the distance comes from a .set variable that is (re)assigned while another segment is current
+    for kind in (("brne", None), ("rjmp", None), ("rcall", None), ("brbc", 2)):
+        mn, sbit = kind
+        ops_pre = [E(sbit)] if sbit is not None else []
+        for segname in ("data", "eeprom", "code"):
+            for off in (2, 5, 64, 65, 100, 2048, 2049):
+                prog = [setv("stride", 1), seg(segname), setv("stride", off), seg("code"), instr(mn, *(ops_pre + [E(binop("+", sym("pc"), sym("stride")))]))] + \
+                       filler(rnd, min(off, 6), "nop", 1) + [instr("ret")]
+                cases.append(Case(prog, tag="set-in-segment"))
+                prog = [instr("nop"), seg(segname), setv("handler", off), seg("code"), instr(mn, *(ops_pre + [E(sym("handler"))])), instr("ret")]
+                cases.append(Case(prog, tag="set-in-segment"))
     return run_cases(prop, tier, seed, cases, devices, keyf=default_key, extra=[pipeline_extra(sample=1200, seed=seed)],
                      rule="<prefix, branch/jump, filler, target> forward and backward for 34 branch forms + rjmp/rcall; every boundary "
-                          "distance for every form, every distance -70..70 with forms rotated; fillers: nop, jmp, odd .db, .dw, 3-byte .db, "
+                          "distance for every form, every distance -70..70 with forms rotated; fillers: nop, jmp, odd .db, .dw, .dd, .dq, 3-byte and non-ASCII .db, "
                           ".org gap, mixed; target named by label and by pc expression; plus far targets (around +-2^7, 2^8, 2^12, 2^13, 2^15, 2^16, 2^22, 2^31, "
                           "2^32) named by pc expression")
 
@@ -615,6 +632,8 @@ def check_c06(prop, tier, seed, devices):
         for w in (1, 2, 4, 8):
             vals = width_values(w)
             elems_pool = [E(lit(v)) for v in vals] + [E(sym("k1")), E(sym("here"))]
+            if segname != "data":
+                elems_pool += [E(binop("&", sym("pc"), lit(0x7f))), E(binop("+", sym("pc"), lit(1)))]     # the location counter, also in data operands
             if w == 1 or segname == "code":
                 elems_pool += [S(s) for s in STRINGS]
             # single elements, pairs, and a second data line after it (exposes per-line padding)
@@ -710,7 +729,13 @@ def sym_program(rnd, n):
         if pending and rnd.random() < len(pending) / float(steps - step):
             kind, nme = pending.pop()
             if kind == "label":
-                prog.append(label(nme) if cur[0] != "code" else rnd.choice([label(nme), instr("nop", lab=nme)]))
+                # a label stands alone, before an instruction, or before a directive
+                if cur[0] == "code":
+                    prog.append(rnd.choice([label(nme), instr("nop", lab=nme), data(2, E(rnd.randrange(9)), lab=nme), data(1, S("ab"), lab=nme)]))
+                elif cur[0] == "data":
+                    prog.append(rnd.choice([label(nme), byte(1, lab=nme)]))
+                else:
+                    prog.append(rnd.choice([label(nme), data(1, E(7), lab=nme), byte(2, lab=nme)]))
             else:
                 others = [x for x in use_equ + use_lab if x != nme]
                 e = binop("+", sym(rnd.choice(others)), lit(1)) if others and rnd.random() < 0.4 else lit(rnd.randrange(1, 60))
@@ -816,6 +841,13 @@ def check_c10(prop, tier, seed, devices):
     hand += [[defr("tmp", 16), defr("tmp", 17), instr("ldi", E(sym("tmp")), E(1)), undef("tmp"), instr("nop")],
              [defr("tmp", 16), instr("ldi", E(sym("tmp")), E(1)), defr("tmp", 3), instr("mov", E(sym("tmp")), R(1)), instr("ldi", E(sym("tmp")), E(1))],
              [defr("tmp", 16), defr("tmp", 16), undef("tmp"), instr("inc", E(sym("tmp")))]]
+    # macros whose bodies consist of symbol directives only
+    hand += [[setv("n", 0), line("macro", n="bump"), setv("n", binop("+", sym("n"), lit(1))), line("endm"), call("bump"), call("bump"), instr("ldi", R(16), E(sym("n")))],
+             [defr("tmp", 16), line("macro", n="rel"), undef("tmp"), line("endm"), call("rel"), instr("inc", E(sym("tmp")))],
+             [defr("tmp", 16), line("macro", n="reb"), undef("tmp"), defr("tmp", 19), line("endm"), call("reb"), instr("inc", E(sym("tmp")))],
+             [line("macro", n="mk"), defr("tmp", 21), line("endm"), instr("nop"), call("mk"), instr("inc", E(sym("tmp"))), undef("tmp")],
+             [data(2, E(sym("tab")), lab="tab"), instr("ldi", R(16), E(fn("low", sym("tab")))), seg("data"), byte(2, lab="cnt"), seg("eeprom"), data(1, E(1), lab="ee"),
+              seg("code"), data(2, E(sym("cnt")), E(sym("ee")))]]
     # chains of definitions: a name defined through others, used several times in one expression, together with the names it is built on
     chain = [equ("ca", binop("+", lit(1), lit(1))), equ("cb", binop("*", sym("ca"), lit(2))), equ("cc", binop("+", lit(10), sym("cb"))),
              equ("cd", binop("-", sym("cc"), sym("ca")))]
@@ -1047,9 +1079,14 @@ def check_c08(prop, tier, seed, devices):
     for outer in (0, 1):
         for inner_else in (False, True):
             body = [line("if", e=binop(">", arg(0), lit(2))), instr("ldi", R(16), E(1))] + ([line("else"), instr("ldi", R(16), E(2))] if inner_else else []) + [line("endif")]
-            prog = [line("if", e=lit(outer)), line("macro", n="sel")] + copy.deepcopy(body) + [line("endm"), call("sel", E(3)), line("else"), instr("ldi", R(17), E(7)),
-                                                                                                 line("endif"), instr("nop")]
-            cases.append(Case(prog, tag="macro-def-in-branch"))
+            for form in (".endm", ".endmacro"):
+                prog = [line("if", e=lit(outer)), line("macro", n="sel")] + copy.deepcopy(body) + [line("endm", form=form), call("sel", E(3)), line("else"), instr("ldi", R(17), E(7)),
+                                                                                                     line("endif"), instr("nop")]
+                cases.append(Case(prog, tag="macro-def-in-branch"))
+                # two variants of one macro, one per branch
+                prog = [line("ifdef", n="FAST"), line("macro", n="var"), instr("ldi", R(16), E(1)), line("endm", form=form), line("else"),
+                        line("macro", n="var"), instr("ldi", R(16), E(2)), line("endm", form=form), line("endif"), call("var"), instr("nop")]
+                cases.append(Case(([line("define", n="FAST")] if outer else []) + prog, tag="macro-def-in-branch"))
     # de-duplicate
     seen, uniq = set(), []
     for c in cases:
@@ -1098,6 +1135,19 @@ def fault_lines():
         ("out-of-range", [instr("sbi", E(40), E(1))]),
         ("out-of-range", [instr("adiw", R(24), E(64))]),
         ("out-of-range", [instr("ldi", R(3), E(1))]),
+        # a register outside the class the instruction takes, in either position
+        ("wrong-register", [instr("mulsu", R(16), R(24))]),
+        ("wrong-register", [instr("mulsu", R(24), R(16))]),
+        ("wrong-register", [instr("fmul", R(23), R(31))]),
+        ("wrong-register", [instr("fmulsu", R(15), R(16))]),
+        ("wrong-register", [instr("muls", R(16), R(15))]),
+        ("wrong-register", [instr("movw", R(2), R(5))]),
+        ("wrong-register", [instr("movw", R(1), R(3))]),
+        ("wrong-register", [instr("adiw", R(23), E(1))]),
+        ("wrong-register", [instr("sbiw", R(25), E(1))]),
+        ("wrong-register", [instr("cpi", R(15), E(1))]),
+        ("wrong-register", [instr("ser", R(7))]),
+        ("syntax", [line("garbage", text="ldi r16, " + "(" * 70 + "1" + ")" * 70)]),
         # values whose low byte / low word alone would be a valid operand
         ("out-of-range-wrap", [instr("out", E(0x10b), R(16))]),
         ("out-of-range-wrap", [instr("in", R(16), E(lit(-251)))]),
@@ -1143,6 +1193,16 @@ def check_c15(prop, tier, seed, devices):
                 for shift in (0, 7):
                     prog = [line("blank") for _ in range(shift)] + copy.deepcopy(base[:pos]) + copy.deepcopy(fl) + copy.deepcopy(base[pos:])
                     cases.append(Case(prog, tag=kind, chkline=True))
+    # the fault stands in a macro body that is called once: the line named is the line of the body
+    for bi, base in enumerate(base_programs()[:2]):
+        for kind, fl in fault_lines():
+            if any(l["k"] in ("if", "elif", "endif") for l in fl):
+                continue
+            for callpos in (0, len(base)):
+                for shift in (0, 5):
+                    prog = [line("blank") for _ in range(shift)] + [line("macro", n="faulty"), instr("nop")] + copy.deepcopy(fl) + [instr("ret"), line("endm")] + \
+                           copy.deepcopy(base[:callpos]) + [call("faulty")] + copy.deepcopy(base[callpos:])
+                    cases.append(Case(prog, tag=kind + "-in-macro", chkline=True))
     # messages: placements of .message/.warning/.error around and inside taken / untaken branches
     slots = 6
     skeleton = lambda: [instr("nop"), line("if", e=lit(1)), instr("ldi", R(16), E(1)), line("else"), instr("ldi", R(16), E(2)), line("endif"),
@@ -1170,6 +1230,12 @@ def check_c15(prop, tier, seed, devices):
             for shift in (0, 7):
                 q = [line("blank") for _ in range(shift)] + copy.deepcopy(prog)
                 cases.append(Case(q, tag="messages", chkline=True, msg_texts=texts))
+            # conditions that hold with a value other than 1: negative, large
+            q = copy.deepcopy(prog)
+            for j, l in enumerate(q):
+                if l["k"] in ("if", "elif") and l["e"].get("t") == "num" and l["e"]["v"] == 1:
+                    l["e"] = [un("-", lit(1)), un("~", lit(0)), binop("-", lit(2), lit(5)), lit(1 << 40), un("-", lit(1 << 40))][(j + n) % 5]
+            cases.append(Case(q, tag="messages-neg", chkline=True, msg_texts=texts))
             # the same placement with the conditional directives in the '#' spelling (all of them / a seeded half)
             for mode in (0, 1):
                 q = copy.deepcopy(prog)
@@ -1182,7 +1248,7 @@ def check_c15(prop, tier, seed, devices):
                           "out of range also by a multiple of 256 / 65536, undefined symbol in instruction/data/.set/.if/.elif also beside a deciding && / ||, zero divisor, misfit, string in .dw, "
                           "duplicate label, .error), each built as is and "
                           "shifted down by 7 lines; the error text must contain the specification's fault line as an integer token both times; "
-                          "plus 2304 placements of .message/.warning/.error in and around taken and untaken branches, including .elif chains and nested chains, "
+                          "every fault also inside a macro body called once (the body's line is named); plus 2304 placements of .message/.warning/.error in and around taken and untaken branches, including .elif chains and nested chains, "
                           "in the '.' and the '#' spelling of the conditional directives" % len(fault_lines()),
                      assumptions=["messages from macro bodies and line numbers inside included files are not checked (property silent)"])
 
@@ -1229,6 +1295,21 @@ def limit_cases(devname, d):
         r = R_ + delta
         if r >= 1:
             add("ram.org-reselect", [seg("data"), org(RS + r - 1), seg("data"), byte(1)])
+    # a memory filled exactly in two or three blocks
+    for delta in (-1, 0, 1):
+        n = E_ + delta
+        if n >= 4:
+            add("eeprom.blocks", [seg("eeprom"), data(1, E(1), E(2)), org(n - 1), data(1, E(3))])
+            add("eeprom.blocks", [seg("eeprom"), data(1, E(1), E(2), E(3)), seg("code"), instr("nop"), seg("eeprom"), byte(n - 4), data(1, E(9))])
+            add("eeprom.blocks", [seg("eeprom"), data(2, E(1)), org(4), data(1, E(1)), seg("data"), byte(1), seg("eeprom"), org(n - 2), data(2, E(7))])
+        m = F + delta
+        if m >= 6:
+            add("flash.blocks", [instr("nop"), instr("nop"), org(4), instr("ret"), org(m - 1), instr("nop")])
+            add("flash.blocks", [data(1, E(1), E(2), E(3)), seg("eeprom") if E_ else seg("data"), seg("code"), org(m - 2), data(2, E(1), E(2))])
+        r = R_ + delta
+        if r >= 4:
+            add("ram.blocks", [seg("data"), byte(2), org(RS + 3), byte(r - 3)])
+            add("ram.blocks", [seg("data"), byte(1), seg("code"), instr("nop"), seg("data"), byte(1), org(RS + r - 1), byte(1)])
     # eeprom (bytes)
     for delta in (-1, 0, 1):
         n = E_ + delta
@@ -1395,6 +1476,10 @@ def macro_bodies():
     out.append(("oncearg", "r", [line("ifndef", n="DONE_ARG"), line("define", n="DONE_ARG"), instr("inc", ARG(0)), line("else"),
                                  instr("dec", ARG(0)), line("endif")]))
     out.append(("counted", "", [instr("nop"), data(2, E(sym("pc")))]))
+    # bodies that only change symbols: they leave no code, but they happen
+    out.append(("bump", "", [setv("cnt", binop("+", sym("cnt"), lit(1)))]))
+    out.append(("rebind", "r", [undef("tmpreg"), defr("tmpreg", 18), instr("nop")]))
+    out.append(("release", "", [undef("tmpreg")]))
     # bodies for calls written in the data / EEPROM segment
     out.append(("dvar", "e", [byte(arg(0)), byte(1)]))
     out.append(("dvars", "ee", [call("dvar", ARG(0)), call("dvar", ARG(1))]))
@@ -1402,11 +1487,22 @@ def macro_bodies():
     return out
 
 
+ALL_BINOPS = ["*", "/", "%", "+", "-", "<<", ">>", "<", "<=", ">", ">=", "==", "!=", "&", "^", "|", "&&", "||"]
+
+
 def arg_values(kind, rnd):
     if kind == "r":
         return [R(rnd.choice([16, 17, 24, 31, 20, 29]))]
     if kind == "x":
         return [IX("Y", "disp", lit(rnd.randrange(0, 64))), IX("Z", "disp", binop("+", lit(1), lit(2)))]
+    if rnd.random() < 0.35:
+        # every operator, written out in the argument: the text that reaches the body means what the caller wrote
+        op = rnd.choice(ALL_BINOPS)
+        a, b = rnd.choice([(3, 3), (5, 2), (2, 5), (6, 3), (7, 7), (1, 0), (0, 1)])
+        if op in ("/", "%") and b == 0:
+            b = 4
+        e = binop(op, lit(a), lit(b))
+        return [E(e), E(binop("+", e, lit(1))), E(binop(op, sym("kk"), lit(5))), E(un("-", e)), E(binop(op, lit(a), par(binop("-", lit(b + 2), lit(2)))))]
     return [E(lit(rnd.randrange(0, 9))), E(binop("+", lit(1), lit(2))), E(par(binop("+", lit(1), lit(2)))), E(binop("*", lit(2), lit(3))),
             E(un("-", lit(1))), E(binop("|", binop("<<", lit(1), lit(2)), lit(1))), E(sym("kk")), E(binop("-", lit(7), lit(2))),
             E(binop("==", lit(1), lit(1))), E(un("!", lit(0)))]
@@ -1483,6 +1579,12 @@ def check_c09(prop, tier, seed, devices):
                 argsets = argsets[:1]
                 calls = calls[:1]
             head = [equ("kk", 5)]
+            if name == "bump":
+                head += [setv("cnt", 0)]
+                calls = [copy.deepcopy(c) for c in (calls * 3)[:1 + rep % 4]]
+            if name in ("rebind", "release"):
+                head += [defr("tmpreg", 17)]
+                calls = calls[:1]
             if name == "flagged":
                 head += [line("define", n="DeBug")] if rep % 2 == 0 else [line("define", n="RELEASE")]
             if name in ("once", "oncearg", "counted"):
@@ -1506,6 +1608,11 @@ def check_c09(prop, tier, seed, devices):
                 prog = head + defs + [instr("nop"), org(0x20)] + calls + [instr("ret")]
             else:
                 prog = head + defs + [instr("nop"), seg("data"), byte(2), seg("code")] + calls + [instr("ret")]
+            if name == "bump":
+                prog = prog + [instr("ldi", R(20), E(sym("cnt"))), data(1, E(sym("cnt")), E(0))]
+            if name in ("rebind", "release"):
+                # what the alias names after the call: the new register, or nothing any more
+                prog = prog + [instr("inc", E(sym("tmpreg")))]
             cases.append(Case(prog, tag="macro." + name))
             # variants: a missing argument, an undefined macro
             # (a parameter that only occurs in an unselected branch or in a condition reached while skipping is a corner
@@ -1520,6 +1627,11 @@ def check_c09(prop, tier, seed, devices):
                 und = [l for l in copy.deepcopy(prog)]
                 und.append(call("nosuchmacro", R(1)))
                 cases.append(Case(und, tag="macro.undefined"))
+    # many calls in one build, flat and nested (any number of times)
+    for ncalls in (63, 64, 65, 100, 300):
+        cases.append(Case([line("macro", n="one"), instr("inc", ARG(0)), line("endm")] + [call("one", R(16 + i % 16)) for i in range(ncalls)], tag="many-calls"))
+    cases.append(Case([line("macro", n="leaf"), instr("dec", ARG(0)), line("endm"), line("macro", n="pair"), call("leaf", ARG(0)), call("leaf", ARG(0)), line("endm")] +
+                      [call("pair", R(16 + i % 8)) for i in range(40)], tag="many-calls"))
     return run_cases(prop, tier, seed, cases, devices, keyf=default_key, mc=mc, extra=[pipeline_extra(sample=1500 if tier == "quick" else 15000, seed=seed)],
                      rule="%d macro bodies (register, repeated, one operator of every precedence level on either side of the parameter, data, "
                           "index forms, conditionals on parameters, nested calls with permuted parameters, bodies switching to the data and EEPROM "
